@@ -80,7 +80,7 @@ def run(ctx):
     thms = ctx.build_and_audit(["NutsProofs.Props.C18"])
     required = ["did_url_roundtrip", "fetch_origin_bound", "redirects_stay_on_origin", "strict_client_https_only",
                 "redirect_witness", "id_bound_web", "id_bound", "jwk_key_pure", "local_first_no_network",
-                "deactivated_needs_flag", "local_store_fault_no_network", "fact_local_resolver_errors", "fact_sets", "fact_content_types", "fact_redirect_policy", "fact_router",
+                "deactivated_needs_flag", "local_store_fault_no_network", "fact_local_resolver_errors", "fact_cache_index", "cache_key_injective", "cache_no_foreign_entry", "fact_sets", "fact_content_types", "fact_redirect_policy", "fact_router",
                 "fact_deactivation", "fact_resolve_checks_document_id", "fact_strict_do"]
     for r in required:
         if not any(t.endswith("Props." + r) for t in thms):
@@ -217,6 +217,23 @@ def run(ctx):
                     violation("document-accepted-with-other-content-type", f"document accepted with Content-Type {bytes.fromhex(last.get('ct', ''))!r}", opl)
             if out.startswith("ok:") and bytes.fromhex(out[3:]) != b"did:web:" + idb:
                 violation("document-id-differs", f"returned document id {bytes.fromhex(out[3:])!r} for did:web:{idb!r}", opl)
+        elif kind == "cache":
+            m = re.fullmatch(r"cache inner=\[(.*)\] out=(.*)", line)
+            if not m:
+                continue
+            inner = [bytes.fromhex(x) for x in m.group(1).split(",") if x]
+            outs = [o for o in m.group(2).split(";") if o]
+            idb = bytes.fromhex(op.get("id", ""))
+            distinct.add(key + (json.dumps(op.get("pre")), op.get("cacheable")))
+            outcomes["cache " + ("ok" if outs and outs[0].startswith("ok") else "err") + f" pre={len(op.get('pre') or [])}"] += 1
+            host, path = expected_origin(idb)
+            want = b"https://" + host + path
+            if any(o.startswith("ok") for o in outs):
+                if want not in inner:
+                    violation("document-from-foreign-cache-entry", f"did:web:{idb.decode('latin1')} resolved although {want!r} was never requested over the network: the bytes came from a cache entry of {[x.decode('latin1') for x in inner]}", opl)
+                for o in outs:
+                    if o.startswith("ok:") and bytes.fromhex(o[3:]) != b"did:web:" + idb:
+                        violation("document-id-differs", f"returned document id {bytes.fromhex(o[3:])!r} for did:web:{idb!r}", opl)
         elif kind == "resolve":
             m = re.fullmatch(r"resolve reqs=(\d+) out=(.*)", line)
             if not m:
